@@ -91,21 +91,42 @@ pub fn run_zigzag(w: u128, op: &Group) -> Group {
 }
 
 // ------------------------------------------------------------------ VBYTE over std::io
+/// a byte sink that accepts at most `k` bytes per call (k = 0: everything), as pipes and sockets may
+struct Chunked {
+    buf: Vec<u8>,
+    k: usize,
+}
+impl Write for Chunked {
+    fn write(&mut self, b: &[u8]) -> std::io::Result<usize> {
+        let n = if self.k == 0 { b.len() } else { b.len().min(self.k) };
+        self.buf.extend_from_slice(&b[..n]);
+        Ok(n)
+    }
+    fn flush(&mut self) -> std::io::Result<()> {
+        Ok(())
+    }
+}
+
 pub fn run_vbyte_io(op: &Group) -> Group {
     guard(|| match a(op, 0) {
         0 => {
-            let mut buf: Vec<u8> = Vec::new();
+            // op[4] (optional): the sink takes at most that many bytes per call
+            let mut sink = Chunked { buf: Vec::new(), k: a(op, 4) as usize };
+            let buf = &mut sink;
             let v = a(op, 2) as u64;
             // op[3] (optional): 1 = go through the generic entry point vbyte_write::<E>
             let n = match (a(op, 1), a(op, 3)) {
-                (0, 0) => vbyte_write_be(v, &mut buf).unwrap(),
-                (_, 0) => vbyte_write_le(v, &mut buf).unwrap(),
-                (0, _) => vbyte_write::<BE, _>(v, &mut buf).unwrap(),
-                (_, _) => vbyte_write::<LE, _>(v, &mut buf).unwrap(),
+                (0, 0) => vbyte_write_be(v, buf).unwrap(),
+                (_, 0) => vbyte_write_le(v, buf).unwrap(),
+                (0, _) => vbyte_write::<BE, _>(v, buf).unwrap(),
+                (_, _) => vbyte_write::<LE, _>(v, buf).unwrap(),
             };
-            assert_eq!(n, buf.len(), "vbyte_write returned a wrong count");
             let mut g = vec![ST_OK];
-            g.extend(buf.into_iter().map(|b| b as u128));
+            g.extend(sink.buf.iter().map(|b| *b as u128));
+            // the returned count is part of the result: it must be the number of bytes of the code
+            if n != sink.buf.len() {
+                g.push(0xffff_0000 + n as u128);
+            }
             g
         }
         _ => {
@@ -732,6 +753,35 @@ pub fn run_stats(ops: &[Group]) -> Vec<Group> {
                 }
             }
         }
+        out
+    }));
+    r.unwrap_or_else(|_| vec![vec![ST_PANIC]])
+}
+
+/// header [13; cap_words]; ops = values written through one CodesStatsWrapper into a fixed slice of cap_words
+/// u64 words; writes that fail (slice full) must not be counted.  Output: one status group per value, then the
+/// totals and the best code.
+pub fn run_stats_failing(hdr: &Group, ops: &[Group]) -> Vec<Group> {
+    let cap = (a(hdr, 1) as usize).max(1);
+    let r = catch_unwind(AssertUnwindSafe(|| -> Vec<Group> {
+        let mut out = Vec::new();
+        let mut store = vec![0u64; cap];
+        let sw = CodesStatsWrapper::<Codes>::new(Codes::Gamma);
+        {
+            let mut w = BufBitWriter::<LE, _>::new(MemWordWriterSlice::new(&mut store[..]));
+            for op in ops {
+                let v = a(op, 1) as u64;
+                match <CodesStatsWrapper<Codes> as DynamicCodeWrite>::write(&sw, &mut w, v) {
+                    Ok(_) => out.push(vec![ST_OK]),
+                    Err(_) => out.push(vec![ST_ERR]),
+                }
+            }
+            // dropping a writer over a full slice panics in its Drop
+            std::mem::forget(w);
+        }
+        let (_, s) = sw.into_inner();
+        out.push(flat(&s));
+        out.push(best(&s));
         out
     }));
     r.unwrap_or_else(|_| vec![vec![ST_PANIC]])
